@@ -6,7 +6,7 @@
    Stated for every threshold 0 < eps (the library's eps is one instance). *)
 From Coq Require Import Reals List Lra Lia.
 From Manif Require Import Scalar Mat Group RInst Generic LieSpec SO2 SE2 SO3 SE3 SE23 SGal3 Rn SE2Proofs SO3Proofs SE23Proofs RnProofs
-  Bundle BundleLaws BundleInst BundleCore.
+  Bundle BundleLaws BundleInst BundleCore BundleGroup.
 Import ListNotations.
 Local Open Scope R_scope.
 
@@ -90,3 +90,15 @@ Proof.
   - reflexivity.
   - exists 1, 2, 3, (2/7), (3/7), (6/7), 0, 4, 5, 6, 9; split; [reflexivity|unfold n4; lra].
 Qed.
+
+(* The full statement of C01 (GroupLaws, act included) for Bundles: the Bundle of groups with a GroupCore has a GroupCore
+   (BundleGroup.Bundle_core), for ANY list of element groups.  The homogeneous point of a Bundle is the concatenation of
+   the elements' homogeneous sub-points (bhom / bhomo), and act is the block-diagonal transform() applied to it. *)
+Theorem C01_Bundle_GroupLaws (LG : list PackedG) (dG : PackedG) :
+  GroupLaws (Bundle (map p_G (map m_pack (map g_m LG)))) (gc_valid (Bundle_core LG dG)) (gc_hom (Bundle_core LG dG)) (gc_homo (Bundle_core LG dG)).
+Proof. exact (laws_of_core _ (Bundle_core LG dG)). Qed.
+Print Assumptions C01_Bundle_GroupLaws.
+Theorem C01_Bundle_layout101_GroupLaws eps (H : 0 < eps) :
+  let LG := [R1_packG; SO3_packG eps H; SE2_packG eps H] in
+  GroupLaws (Bundle [Rn RS 1; SO3 RS eps; SE2 RS eps]) (gc_valid (Bundle_core LG R1_packG)) (gc_hom (Bundle_core LG R1_packG)) (gc_homo (Bundle_core LG R1_packG)).
+Proof. exact (laws_of_core _ (Bundle_core [R1_packG; SO3_packG eps H; SE2_packG eps H] R1_packG)). Qed.
